@@ -3,6 +3,8 @@ import CruxVerif.Props.C07
 #print axioms Props.C07.held_task_never_discarded
 #print axioms Props.C07.evict_sound
 #print axioms Props.C07.evict_sound_runTask
+#print axioms Props.C07.evict_sound_reachable
+#print axioms Props.C07.stored_blocks_well_formed
 #print axioms Props.C07.poll_parks
 #print axioms Props.C07.done_iff
 #print axioms Props.C07.host_sees_done_exactly
